@@ -210,6 +210,19 @@ CHECKS = {
         "known findings (empty stream writer closed without flush; trailing empty split part).",
         "DESIGN.md 4/C17",
     ),
+    "C18": (
+        "exploration",
+        "model-based operation sequences (Hypothesis) with an independent sqlite3 connection as observer after every "
+        "step; metamorphic comparison across batch sizes",
+        "Generated write/flush/close histories over evolving descriptors (SQL keywords and case-mixed names as table "
+        "and column names, 64-bit integers, finite floats, bytes, timestamps, text-form types) are applied with a "
+        "generated batch size; after every call a second connection must see a per-table prefix whose total is an "
+        "allowed commit point and not below the last mandatory one; after close tables, columns, row order and cell "
+        "values are compared with the records written, also through SqliteReader; replaying the history with another "
+        "batch size must give an identical database dump.",
+        "The observer looks between calls only; atomicity inside one call rests on SQLite's transactions.",
+        "DESIGN.md 4/C18",
+    ),
 }
 
 NOT_APPLICABLE = {}
